@@ -256,9 +256,10 @@ MANIFEST = {
                  "inventory of every function touching the pointer is regenerated from /repo on each run; the obligations "
                  "C09_every_access_guarded (every access sits behind ctx.IsCheckTx(), which is true for query, simulation and CheckTx "
                  "contexts) and C09_pointer_sites_known hold for the current tree and break on a new unguarded access; "
-                 "C09_shared_mutable_state_known: every field of the singleton structs shared by both paths (evm Keeper, bank keeper "
-                 "wrapper, collections descriptors, the precompile objects built once by InitPrecompiles) and every package-level var "
-                 "of x/evm is classified in a hand-maintained table (immutable after construction / store-backed / registry / per-call "
+                 "C09_shared_mutable_state_known: every reference-like or re-assigned field of the singleton structs shared by both paths "
+                 "(the Keepers of evm, inflation, oracle, epochs, sudo, tokenfactory, devgas, the bank keeper wrapper, the precompile "
+                 "objects built once by InitPrecompiles) and every re-assigned / sync package-level var of those modules is classified "
+                 "in a hand-maintained table (immutable after construction / store-backed / registry / per-call "
                  "/ the one guarded pointer) — a new cache, flag or counter breaks it; C09_no_unreviewed_aliasing: every in-place "
                  "big-number operation on a receiver that is not syntactically fresh and every function returning a package-level "
                  "variable itself is a reviewed site. For the model "
@@ -272,13 +273,15 @@ MANIFEST = {
                  "balances on two replicas) is compared on every run with real BeginBlock/DeliverTx/EndBlock/Commit executions in "
                  "which requests go through app.Query / app.Simulate inside an in-flight EVM tx (yield precompile), before it, "
                  "between two txs, after Commit, and from a second goroutine PARKED inside a FunToken precompile method while the "
-                 "block's txs enter the precompile; Pb (sound w.r.t. P) must hold on every observed pair."),
+                 "block's txs enter the precompile; a second driver calls EVERY gRPC query route of the seven custom modules (enumerated "
+                 "by reflection) around blocks that end day epochs (inflation mints), oracle vote periods and a slash window and "
+                 "compares app hashes, supply and block events; Pb (sound w.r.t. P) must hold on every observed pair."),
         "design_ref": "DESIGN.md §5 C09",
     },
     "level_note": ("Theorems are about the model; real schedules are exhibited by inline injection at yield points and by parking one "
                    "request goroutine at two bank-keeper log lines inside sendToBank / sendToEvm (other pre-emption points inside a "
-                   "request are covered by the model and by the static inventory only; the inventory does not descend into the wasm, "
-                   "oracle, bank or staking keepers the evm structs point to); TestRaceC09 gives -race evidence with real goroutines (before the fix: 103 "
+                   "request are covered by the model and by the static inventory only; the inventory covers the seven custom modules and "
+                   "does not descend into the SDK / wasmd keepers they point to); TestRaceC09 gives -race evidence with real goroutines (before the fix: 103 "
                    "reports + committed corruption; after: balances intact, 2 benign reports from value-receiver copies of "
                    "NibiruBankKeeper). The guard recognition of the extractor is syntactic (two accepted forms) and only selects the "
                    "model: M (model vs implementation) and V (Pb on the implementation) still decide. Oracle values: gas of the "
